@@ -227,7 +227,7 @@ FALLBACK_PROPS = ('C03', 'C04', 'C12', 'C16')
 NATIVE_TWINS = {
     # property -> (test file in bounded_native/, [test fn names or None for all], stated bound)
     'C17': ('c17_registration_model', None,
-            '4000 pseudo-random sequences x 16 operations (register, unregister, toggle side, move either king) on a two-king board vs a reference multiset of (placement, side to move) and a reference stack; one game through the Game API in which the start position recurs: draw reported exactly at the third occurrence; 300 shuffling walks x 40 plies of real legal play from the starting position (rights lost by rook / king moves, en-passant targets, a third of the plies taken back): reported count == registrations of the same (placement, side to move, castling rights, en-passant target)'),
+            '4000 pseudo-random sequences x 16 operations (register, unregister, toggle side, move either king) on a two-king board vs a reference multiset of (placement, side to move) and a reference stack; one game through the Game API in which the start position recurs: draw reported exactly at the third occurrence; 300 shuffling walks x 40 plies of real legal play from the starting position (rights lost by rook / king moves, en-passant targets, a third of the plies taken back): reported count == registrations of the same (placement, side to move, castling rights, en-passant target); 120 games x up to 60 plies THROUGH THE GAME API with irreversible moves mixed in (recurrences of the position right after a capture / pawn move included): reported count == occurrences in the game, drawn exactly at the third'),
     'C01': ('c01_perft_suite', ['leaf_counts_match_the_published_perft_figures_with_a_fresh_generator', 'en_passant_is_offered_on_every_file_pair'],
             'en passant on all 14 adjacent file pairs x 2 colours; five standard perft positions (start 1..5, Kiwipete 1..3, position 3 1..4, position 4 1..3, position 5 1..3): leaf counts of generate_moves + apply + undo against the published figures, board restored'),
     'C02': ('c01_perft_suite', ['leaf_counts_do_not_depend_on_what_the_generator_was_asked_before'],
